@@ -256,7 +256,12 @@ theorem C20_mono_witness : ¬ C20_mono_full := by
   revert this
   decide +kernel
 
-/-! ## (8) unsupported fonts or units are a `ValueError` -/
+/-! ## (8) unsupported fonts or units are a `ValueError`
+
+Here for the typed model (`FontArg` = an int or a string, `unit : String`).  The same clause for **every Python value
+class** of every argument (`None`, bool, float, bytes, tuple, numpy scalars, … — the refused value need not be a
+string) is stated and proved over `Model.StrWidth.Val` in `Props/C20val.lean` (`C20_val_expected`,
+`C20_val_unsupported_font`, `C20_val_unsupported_unit`; `C20_val_refines` ties that model to this one). -/
 
 theorem C20_unknown_font_number (measure : String → Rat → List Char → Rat) (t : List Char) (n : Int)
     (size dpi : Rat) (unit : String) (hn : n < 1 ∨ 10 < n) :
